@@ -26,7 +26,7 @@ REFS = {
 DEFAULT_WEIGHTS = {
     'new': 3, 'setcolkind': 5, 'setcol': 8, 'setcolfromcol': 3, 'setcell': 12, 'select': 9, 'merge': 6, 'slice': 4,
     'getrows': 3, 'sort': 4, 'shuffle': 4, 'sample': 2, 'setlength': 5, 'delrows': 3, 'delcol': 2, 'rename': 3,
-    'concat': 3, 'setsorted': 1,
+    'concat': 3, 'setsorted': 1, 'setcolfromslice': 2,
 }
 
 
@@ -44,6 +44,32 @@ def gen_rhs(rng, kind, n, bad_rate):
     if rng.random() < bad_rate:
         m = max(0, n + rng.choice([-1, 1, 2]))
     return {'k': 'seq', 'vs': [pyobs.enc(pick_value(rng, kind, bad_rate / 2)) for _ in range(m)]}
+
+
+def _fits_int64(col):
+    for x in list(col):
+        if isinstance(x, (int, float)) and x == x and abs(x) >= 2 ** 62:
+            return False
+    return True
+
+
+def gen_col_rhs(rng, P, ti, name, m):
+    """A right-hand side that is a live column object: the target itself, another column of the same table (any
+    type) or of another pool table; None when no column of the required length exists."""
+    cands = []
+    for t2, q in enumerate(P):
+        if len(q) != m:
+            continue
+        target_int = world.kind_of(P[ti]._cols[name]) == 'KInt' if name in P[ti]._cols else False
+        for nm, col in q._cols.items():
+            if world.kind_of(col) is not None:
+                if target_int and not _fits_int64(col):
+                    continue        # int64 overflow of an IntColumn is outside the model (OverflowError)
+                cands.append((3 if t2 == ti and nm == name else (2 if t2 == ti else 1), t2, nm))
+    if not cands:
+        return None
+    _w, t2, nm = rng.choices(cands, [c[0] for c in cands])[0]
+    return {'k': 'col', 't2': t2, 'name2': nm, 'as': rng.choice(['column', 'column', 'array'])}
 
 
 def col_kinds(dm):
@@ -96,11 +122,18 @@ def gen_op(rng, r, weights, bad_rate=0.08, max_pool=7, max_rows=9):
                 a = rng.choice([None, 0, 1, 2, -1, -2, n, n + 2])
                 b = rng.choice([None, 1, 2, 3, -1, n, n + 1])
                 m = len(range(*slice(a, b).indices(n)))
+                rhs = gen_col_rhs(rng, P, ti, name, m) if rng.random() < 0.15 else None
                 return {'op': 'setcell', 't': ti, 'name': name, 'addr': {'k': 'slice', 'a': a, 'b': b},
-                        'rhs': gen_rhs(rng, kind, m, bad_rate)}
+                        'rhs': rhs or gen_rhs(rng, kind, m, bad_rate)}
             if form == 'list':
                 if n == 0:
                     continue
+                if rng.random() < 0.3:
+                    # every row once, in some order: with a column-valued right-hand side (often the target itself)
+                    l = rng.sample(range(n), n)
+                    rhs = gen_col_rhs(rng, P, ti, name, n) if rng.random() < 0.7 else None
+                    return {'op': 'setcell', 't': ti, 'name': name, 'addr': {'k': 'list', 'l': l},
+                            'rhs': rhs or gen_rhs(rng, kind, n, bad_rate)}
                 l = [rng.randrange(n) for _ in range(rng.randint(0, min(n, 4)))]
                 if rng.random() < bad_rate:
                     l.insert(rng.randint(0, len(l)), rng.choice([-1, n, n + 1]))
@@ -115,8 +148,9 @@ def gen_op(rng, r, weights, bad_rate=0.08, max_pool=7, max_rows=9):
                 if not cands:
                     continue
                 t2 = rng.choice(cands)
+                rhs = gen_col_rhs(rng, P, ti, name, len(P[t2])) if rng.random() < 0.2 else None
                 return {'op': 'setcell', 't': ti, 'name': name, 'addr': {'k': 'sel', 't2': t2},
-                        'rhs': gen_rhs(rng, kind, len(P[t2]), bad_rate)}
+                        'rhs': rhs or gen_rhs(rng, kind, len(P[t2]), bad_rate)}
         if k == 'select':
             if not cols:
                 continue
@@ -163,7 +197,23 @@ def gen_op(rng, r, weights, bad_rate=0.08, max_pool=7, max_rows=9):
             return {'op': 'delrows', 't': ti, 'l': l}
         if k == 'delcol':
             name = rng.choice([c[0] for c in cols]) if cols and rng.random() > bad_rate else rng.choice(NAMES)
-            return {'op': 'delcol', 't': ti, 'name': name}
+            return {'op': 'delcol', 't': ti, 'name': name, 'how': rng.choice(['item', 'item', 'attr', 'obj'])}
+        if k == 'setcolfromslice':
+            if not cols or n == 0:
+                continue
+            c = rng.random()
+            if c < 0.25:
+                l = list(range(n))                                  # all rows in their order: inserted as it is
+            elif c < 0.5 and n >= 3:
+                mid = list(range(1, n - 1))
+                rng.shuffle(mid)
+                l = [0] + mid + [n - 1]                             # permuted inside, end points in place
+            elif c < 0.85:
+                l = rng.sample(range(n), n)
+            else:
+                l = rng.sample(range(n), rng.randint(0, n - 1)) + ([n + 1] if rng.random() < 0.3 else [])
+            l = [i - n if (0 <= i < n and rng.random() < 0.15) else i for i in l]
+            return {'op': 'setcolfromslice', 't': ti, 'name': rng.choice(NAMES), 'name2': rng.choice(cols)[0], 'l': l}
         if k == 'rename':
             old = rng.choice([c[0] for c in cols]) if cols and rng.random() > bad_rate else rng.choice(NAMES)
             new = rng.choice(NAMES + ['e', 'f']) if rng.random() > bad_rate else rng.choice(BADNAMES)
